@@ -46,7 +46,7 @@ def configs():
             for b in ((0, None), (1, 2)):
                 add('List', allow_None=an, item_type=it, bounds=b)
         add('Dict', allow_None=an)
-        for objs in ('ints', 'strs', 'mixed', 'floats', 'with_none', 'empty', 'dict', 'samename', 'dict_open'):
+        for objs in ('ints', 'strs', 'mixed', 'floats', 'with_none', 'empty', 'dict', 'samename', 'dict_open', 'dict_open_newtype'):
             add('Selector', allow_None=an, objects=objs)
             add('ListSelector', allow_None=an, objects=objs)
         for c in ('int', 'str', 'float', 'int_str', 'dict', 'list', 'bool', 'bool_str'):
@@ -56,7 +56,7 @@ def configs():
 
 TYPES = {'int': int, 'str': str, 'float': float, 'int_str': (int, str), 'dict': dict, 'list': list, 'bool': bool, 'bool_str': (bool, str), None: None}
 OBJS = {'ints': [1, 2, 3], 'strs': ['a', 'b'], 'mixed': [1, 'a', 2.5], 'floats': [0.5, 1.5], 'with_none': [None, 1, 'a'], 'empty': [],
-        'dict': {'one': 1, 'two': 'b'}, 'samename': [1, '1', 2], 'dict_open': {'one': 1, 'two': 2}}
+        'dict': {'one': 1, 'two': 'b'}, 'samename': [1, '1', 2], 'dict_open': {'one': 1, 'two': 2}, 'dict_open_newtype': {'one': 1, 'two': 2}}
 
 
 def build(param, cfg):
@@ -124,9 +124,10 @@ def build(param, cfg):
         o = OBJS[cfg['objects']]
         kw['objects'] = list(o) if isinstance(o, list) else dict(o)
         objs = list(o.values()) if isinstance(o, dict) else list(o)
-        if cfg['objects'] == 'dict_open':
+        if cfg['objects'] in ('dict_open', 'dict_open_newtype'):
             kw['check_on_set'] = False
-            objs = objs + [5]          # a value of an already present JSON type that is not (yet) among the named objects
+            # a value that is not (yet) among the named objects: of an already present JSON type / of a new one
+            objs = objs + ([5] if cfg['objects'] == 'dict_open' else ['zz'])
         if t == 'Selector':
             vals = list(objs)
         else:
